@@ -209,6 +209,14 @@ def r19_3(chk):
     opts = {"exc_type"}
     commit = T.reach_conditions(fn, lambda n: isinstance(n, ast.Call) and norm(n.func) == "self._close_func", opts)
     cleanup = T.reach_conditions(fn, lambda n: isinstance(n, ast.Call) and (call_name(n) or "").endswith("rmtree"), opts)
+    if not cleanup:
+        # cleanup moved into a helper method: it counts when the helper removes the directory unconditionally
+        ci_aw = m.cls("atomic_write")
+        for node, cond in T.reach_conditions(fn, lambda n: isinstance(n, ast.Call) and isinstance(n.func, ast.Attribute) and norm(n.func.value) == "self" and n.func.attr in ci_aw.methods, opts):
+            helper = ci_aw.methods[node.func.attr]
+            inner = T.reach_conditions(helper, lambda n: isinstance(n, ast.Call) and (call_name(n) or "").endswith("rmtree"), set())
+            if inner and all(c == T.TRUE for _, c in inner):
+                cleanup.append((node, cond))
     if not commit:
         raise AnalysisError("atomic_write.__exit__: call of self._close_func not found")
 
